@@ -8,8 +8,28 @@
 //! `VIOLATION property=<id> replay=<path>` is printed), 2 harness error.
 
 mod c12;
+mod c15;
 mod driver;
+mod pools;
 mod rng;
+mod stream;
+
+/// Expand `$body` with `$c` bound to the generic check for property `$id`.
+macro_rules! dispatch {
+    ($id:expr, $c:ident => $body:expr, $else:expr) => {
+        match $id {
+            "C12" => {
+                let $c = &c12::C12;
+                $body
+            }
+            "C15" => {
+                let $c = &c15::C15;
+                $body
+            }
+            _ => $else,
+        }
+    };
+}
 
 use driver::*;
 use serde_json::{json, Value};
@@ -109,13 +129,10 @@ fn main() {
             let id = args.get(2).cloned().unwrap_or_default();
             let tier = args.get(3).cloned().unwrap_or_else(|| "quick".into());
             let cfg = batch_cfg(&id, &tier, &args);
-            match id.as_str() {
-                "C12" => run_generic(&c12::C12, &cfg, json!({})),
-                _ => {
-                    eprintln!("unknown property {id}");
-                    2
-                }
-            }
+            dispatch!(id.as_str(), c => run_generic(c, &cfg, json!({})), {
+                eprintln!("unknown property {id}");
+                2
+            })
         }
         Some("hashes") => {
             let id = args.get(2).cloned().unwrap_or_default();
@@ -123,13 +140,10 @@ fn main() {
             let mut cfg = batch_cfg(&id, "quick", &args);
             cfg.runs = runs;
             cfg.hashes_only = true;
-            let o = match id.as_str() {
-                "C12" => run_batch(&c12::C12, &cfg),
-                _ => {
-                    eprintln!("unknown property {id}");
-                    std::process::exit(2)
-                }
-            };
+            let o = dispatch!(id.as_str(), c => run_batch(c, &cfg), {
+                eprintln!("unknown property {id}");
+                std::process::exit(2)
+            });
             flush_and_code(&o.out_lines, 0)
         }
         Some("replay") => {
@@ -141,13 +155,11 @@ fn main() {
                     std::process::exit(2)
                 }
             };
-            match doc["property"].as_str().unwrap_or("") {
-                "C12" => replay_file(&c12::C12, &doc),
-                p => {
-                    eprintln!("unknown property in replay file: {p}");
-                    2
-                }
-            }
+            let p = doc["property"].as_str().unwrap_or("").to_string();
+            dispatch!(p.as_str(), c => replay_file(c, &doc), {
+                eprintln!("unknown property in replay file: {p}");
+                2
+            })
         }
         _ => {
             eprintln!("usage: t2n-sim run <ID> <quick|thorough> | replay <file> | hashes <ID> <runs>");
